@@ -21,7 +21,7 @@ ID = "C09"
 LEVEL = "model_checking"
 MIN_OUTCOMES = 4
 MANIFEST = {
-    'text': "Complete enumeration of tag placements (absent / on HEAD's branch / only elsewhere) over alphabets containing every kind of tag the property names, for every scope (given by the config, or by --tag-scope on the command line against a config that names another scope), --ignore-vcs-tag, config position (incl. one whose string order differs from its version order) and 5 patterns (v2 date, SemVer with optional group, BUILD, SemVer with PYTAGNUM, legacy {pycalver}); `show`, `update --dry` and `update --dry [--ignore-vcs-tag] --set-version <existing tag>` on the real CLI with tags served at the subprocess seam (git and a hg slice), a failing fetch (giving up is fine, going on without the tags is not), `.git` being a file (fake, and real repositories made with --separate-git-dir), all 120/720 listing orders, a 30-tag listing, and real git repositories (3 tags x placements x scopes, with and without a branch named like the newest tag): the start version must equal the reference scope rule under packaging order, no tag set may crash, an announced version must not equal an existing tag.",
+    'text': "Complete enumeration of tag placements (absent / on HEAD's branch / only elsewhere) over alphabets containing every kind of tag the property names, for every scope (given by the config, or by --tag-scope on the command line against a config that names another scope), --ignore-vcs-tag, config position (incl. one whose string order differs from its version order) and 5 patterns (v2 date, SemVer with optional group, BUILD, SemVer with PYTAGNUM, legacy {pycalver}); `show`, `update --dry` and `update --dry [--ignore-vcs-tag] --set-version <existing tag>` on the real CLI with tags served at the subprocess seam (git and a hg slice), a failing fetch (giving up is fine, going on without the tags is not), `.git` being a file (fake, and real repositories made with --separate-git-dir), all 120/720 listing orders, a 30-tag listing, and real git repositories (3 tags x placements x scopes, with and without a branch named like the newest tag): the start version must equal the reference scope rule under packaging order, no tag set may crash, an announced version must not equal an existing tag, and a tag with an impossible date must not be the reason an update is refused (differential run without those tags).",
     'note': 'more than 8 distinct tags per placement product; real hg is not available (hg listing format only through the fake)',
     'technique': 'explicit-state exploration: exhaustive enumeration of tag-set states x scopes on the real CLI against a reference rule',
 }
@@ -31,7 +31,7 @@ RULE = (
 )
 ASSUMPTIONS = [
     "matching = full match of the reference recogniser and a possible calendar date; order = packaging.version (bumpver's key for non-PEP 440 tags, validated by C16)",
-    "for tags that match the pattern's regex but denote an impossible date, both 'ignored' and 'treated as matching' are accepted, a crash is not",
+    "for tags that match the pattern's regex but denote an impossible date, both 'ignored' and 'treated as matching' are accepted, a crash is not - and neither is an update that is refused only because such a tag is there",
 ]
 
 PATTERNS = {
@@ -240,6 +240,22 @@ def run_state(st, name, pos, scope, ignore, placement, tags, order=None, kind="g
                     st.outcomes["update-ok"] += 1
             else:
                 st.outcomes["update-refused"] += 1
+                # a tag with an impossible date may be ignored or taken for a version (see ASSUMPTIONS) - but it must not BREAK the update:
+                # if the same update goes through once those tags are gone, the refusal was their doing
+                imposs = [t for t in served_all if classify_tag(name, t) == "impossible"]
+                if imposs and not fetch_fault:
+                    fake = fakevcs.install(fakevcs.FakeVCS(kind, tags_all=[t for t in served_all if t not in imposs], tags_merged=[t for t in served_head if t not in imposs], status=[]))
+                    try:
+                        o2 = world.cli("update", "--dry", *flags, *(["--tag-scope", scope] if cfg_scope else []), *P["bump"])
+                    finally:
+                        fakevcs.uninstall()
+                    st.evaluations += 1
+                    st.transitions += 1
+                    results.append(o2)
+                    if o2.exit == 0:
+                        st.outcomes["violation"] += 1
+                        st.violation(f"C09:impossible-date-tag-breaks-the-update:{ctx}", dict(case, cmd=cmd),
+                                     {"exit": o.exit, "log": o.log[-2:], "without_those_tags": o2.new_version, "tags": imposs})
     want = want_update
     # an explicit --set-version that names an existing tag (on any branch) must be refused
     if order is None and not cfg_scope and not fetch_fault:
